@@ -338,7 +338,7 @@ def run_group(crate, features, units, logdir, mem_gb, playback=False, skip=None)
     return results
 
 
-CHECK_RE = re.compile(r"^Check (\d+): (\S+)\n\s+- Status: (\w+)\n\s+- Description: \"(.*)\"\n(?:\s+- Location: (.*)\n)?", re.M)
+CHECK_RE = re.compile(r"^Check (\d+): (.+)\n\s+- Status: (\w+)\n\s+- Description: \"(.*)\"\n(?:\s+- Location: (.*)\n)?", re.M)  # check names of generic trait impls contain spaces
 
 
 def obl_desc(d):
@@ -486,6 +486,10 @@ def classify(unit, r):
     for c in r["covers"]:
         if c["status"] != "SATISFIED":
             undecided.append(f"{unit.id}: cover `{c['desc']}` {c['status']} (vacuity guard)")
+    # safety net: the verifier's own verdict must agree with what was parsed out of its output
+    if r["status"] == "FAILED" and not undecided and not any(o["status"] != "discharged" for o in obligations.values()) \
+            and all(c["status"] == "SATISFIED" for c in r["covers"]):
+        undecided.append(f"{unit.id}: Kani reports VERIFICATION FAILED but no failing check could be parsed from its output (parser defect) -- not counted as discharged")
     named = [o for o in obligations.values() if not o.get("implicit")]
     if not named and not unit.expect_fail and "C04" not in unit.props and "C12" not in unit.props:
         undecided.append(f"{unit.id}: harness states no named obligation")
